@@ -25,21 +25,21 @@ type wop struct {
 }
 
 type mapRound struct {
-	spec     mapSpec
-	family   string
-	workers  int
-	progs    [][]wop
-	hot      []int
-	fillLo   int
-	fillHi   int
-	fillers  int
-	waves    int
-	level    int
-	focus    vshim.Kind
-	procs    int
-	polling  bool
-	whole    bool // small unpartitioned history
-	prefill  []int
+	spec    mapSpec
+	family  string
+	workers int
+	progs   [][]wop
+	hot     []int
+	fillLo  int
+	fillHi  int
+	fillers int
+	waves   int
+	level   int
+	focus   vshim.Kind
+	procs   int
+	polling bool
+	whole   bool // small unpartitioned history
+	prefill []int
 }
 
 func (rd *mapRound) desc() string {
